@@ -255,6 +255,8 @@ const (
 	kUints               // []uint
 	kErr                 // error
 	kErrAt               // error in a function that builds &T{ErrX, off}: the pair (name of ErrX, off)
+	kErrOpt              // error in a function that returns both plain and positioned errors: (name, optional offset)
+	kRune                // rune / int32: BitVec 32 read as two's complement
 	kInt8ss              // [][]int8 (only as a parameter: rows are read as x[j][lo:] arguments, assigned by make, or written through callees)
 )
 
@@ -264,6 +266,8 @@ func (k lkind) lean() string {
 		return "BitVec 64"
 	case kByte, kInt8:
 		return "BitVec 8"
+	case kRune:
+		return "BitVec 32"
 	case kBool:
 		return "Bool"
 	case kBytes, kString, kInt8s:
@@ -274,6 +278,8 @@ func (k lkind) lean() string {
 		return "Option String"
 	case kErrAt:
 		return "Option (String × BitVec 64)"
+	case kErrOpt:
+		return "Option (String × Option (BitVec 64))"
 	case kInt8ss:
 		return "List (List (BitVec 8))"
 	}
@@ -287,16 +293,20 @@ func (k lkind) width() int {
 		return 64
 	case kByte, kInt8:
 		return 8
+	case kRune:
+		return 32
 	}
 	die("lkind.width")
 	return 0
 }
 
-func (k lkind) isNum() bool { return k == kInt || k == kUint || k == kByte || k == kInt8 }
+func (k lkind) isNum() bool {
+	return k == kInt || k == kUint || k == kByte || k == kInt8 || k == kRune
+}
 func (k lkind) isSlice() bool {
 	return k == kBytes || k == kInts || k == kInt8s || k == kUints || k == kInt8ss
 }
-func (k lkind) isSigned() bool { return k == kInt || k == kInt8 }
+func (k lkind) isSigned() bool { return k == kInt || k == kInt8 || k == kRune }
 
 func (k lkind) elem() lkind {
 	switch k {
@@ -385,9 +395,11 @@ type loopTr struct {
 	pairBuf map[types.Object]bool   // those of them that are also resliced: (part already passed, current window)
 	retTy   string                  // Lean type of the result tuple
 	// switch statements and structured errors (see loops_flow.go)
-	errAt      bool                   // the function builds &T{ErrX, off}: error ↦ Option (String × BitVec 64)
-	mayOverlap []string               // output buffers accepted only under the assumption `disjoint` (for the doc comment)
-	synthCond  map[*ast.IfStmt]string // conditionals made from switch clauses: the Lean text of the condition ("" = translate Cond)
+	errAt      bool                          // the function builds &T{ErrX, off}: error ↦ Option (String × BitVec 64)
+	errOpt     bool                          // … and also has plain errors (or gets errors of both kinds from callees): (name, optional offset)
+	asBound    map[types.Object]types.Object // `errors.As(err, &e)`: e ↦ err (loops_call.go)
+	mayOverlap []string                      // output buffers accepted only under the assumption `disjoint` (for the doc comment)
+	synthCond  map[*ast.IfStmt]string        // conditionals made from switch clauses: the Lean text of the condition ("" = translate Cond)
 	// methods, array fields, swapped array pointers, prefix reslicing (see loops_recv.go)
 	name          string                       // the name under which the function was requested ("f" or "T.m")
 	recv          types.Object                 // the receiver `c *T` (nil for a function)
@@ -397,6 +409,10 @@ type loopTr struct {
 	fieldOuts     []types.Object               // those of them the body writes: additional components of the result
 	tagged        map[types.Object]int         // array-pointer parameters that are swapped: variable = (tag, content), see Go.byTag
 	restBuf       map[types.Object]bool        // output buffers cut by `x = x[:k]`: the part behind the window is kept in x_rest
+	errFrom       map[types.Object]*fnSig      // error variables: the callee whose result they hold (for errors.As)
+	inErrLit      int                          // inside &T{…} (a fmt.Errorf there is the wrapped error, not a plain error of the function)
+	loopPre       string                       // bindings to put in front of the body of the next loop (rangeRunes)
+	spareCap      map[types.Object]bool // local slices that were cut with an upper bound: they have capacity beyond their length
 	capSens       map[types.Object]bool        // slice parameters that are sliced with an upper bound (Go checks it against the capacity)
 	absDeps       map[string]string            // abstract methods called: parameter name -> Lean type (loops_call.go)
 	assumedNoWrap bool                         // a loop header was accepted under the !nowrap assumption (for the doc comment)
@@ -433,6 +449,8 @@ func (t *loopTr) kindOf(ty types.Type, at ast.Node) lkind {
 			return kByte
 		case types.Int8:
 			return kInt8
+		case types.Int32: // rune
+			return kRune
 		case types.Bool, types.UntypedBool:
 			return kBool
 		case types.String:
@@ -466,11 +484,16 @@ func (t *loopTr) kindOf(ty types.Type, at ast.Node) lkind {
 
 // errKind is the carrier of `error` in this function.
 func (t *loopTr) errKind() lkind {
+	if t.errOpt {
+		return kErrOpt
+	}
 	if t.errAt {
 		return kErrAt
 	}
 	return kErr
 }
+
+func isErrKind(k lkind) bool { return k == kErr || k == kErrAt || k == kErrOpt }
 
 func sliceKind(elem types.Type) (lkind, bool) {
 	if b, ok := elem.Underlying().(*types.Basic); ok {
